@@ -59,6 +59,7 @@ def _tfs_ctor_cases():
                 for m in (False, True):
                     out.append(Case(f"D={D},offset_range={off},std_one={s},max_one={m}",
                                     lambda e, D=D, off=off, s=s, m=m: ((D,), {"cutoff": sym.integer(e, "cut", lo=0), "offset_range": off, "std_one": s, "max_one": m})))
+    out.append(Case("D=2,documented defaults (no option passed)", lambda e: ((2,), {})))
     return out
 
 
@@ -93,7 +94,7 @@ NORMS = ((True, False, False), (True, True, False), (True, False, True), (False,
 G_Q = "exponax.ic._gaussian_random_field.GaussianRandomField"
 Contract(G_Q, props={"C18", "C20"},
          cases=[Case(f"D={D},zero_mean={z},std_one={s},max_one={m}", lambda e, D=D, z=z, s=s, m=m: ((D,), {"domain_extent": sym.pos_real(e, "L"), "powerlaw_exponent": sym.real(e, "alpha"), "zero_mean": z, "std_one": s, "max_one": m}))
-                for D in DIMS for (z, s, m) in FLAGS],
+                for D in DIMS for (z, s, m) in FLAGS] + [Case("D=2,documented defaults (no option passed)", lambda e: ((2,), {}))],
          raises=[(ValueError, lambda D, domain_extent=1.0, powerlaw_exponent=3.0, zero_mean=True, std_one=False, max_one=False: _bad(zero_mean, std_one, max_one))],
          spec=lambda D, domain_extent=1.0, powerlaw_exponent=3.0, zero_mean=True, std_one=False, max_one=False:
          ObjSpec(IC.GaussianRandomField, {"num_spatial_dims": D, "domain_extent": domain_extent, "powerlaw_exponent": powerlaw_exponent, "zero_mean": zero_mean,
